@@ -103,6 +103,21 @@ def member_fresh(term):
     return False          # a harness class, Exactly[...], HasMethod, Deferred harness classes
 
 
+def member_twin(term, W):
+    """documented meaning for an instance of a PROPER subclass of K1 (same name as K1): like K1 for everything that goes by subclassing,
+    never exactly a harness class, strictly below K1 and whatever K1 is below"""
+    k = term[0]
+    if k == "Ex":
+        return z3.BoolVal(False)
+    if k == "SS":
+        return z3.BoolVal(True) if term[1][0] == "obj" else W.rel(1, term[1][1])
+    if k == "U":
+        return z3.Or([member_twin(t, W) for t in term[1:]])
+    if k == "I":
+        return z3.And([member_twin(t, W) for t in term[1:]])
+    return member13(term, 1, W)
+
+
 def tstr(term):
     if term[0] == "Def":
         return f"Deferred['{DEFMOD}.K{term[1]}']"
@@ -141,8 +156,11 @@ def make_run(W, shape, known_active=None):
         c = shape["c"]
 
         liar = c == "liar"
+        twin = c == "twin"
         if liar:
             c = n            # type(v) is a plain class below object only; v.__class__ claims to be K1 (proxies, mocks): dispatch is on type(v)
+        if twin:
+            c = 1            # a proper subclass of K1 that carries K1's own name, qualified name and module (type(C.__name__, (C,), {}))
 
         def run(ctx):
             FINDER.world = W
@@ -152,6 +170,12 @@ def make_run(W, shape, known_active=None):
                     # (its module's name merely starts like the absent package's)
                     Liar = type("Liar", (), {"__class__": property(lambda self: W.K[1]), "__module__": "symxabsent_tools.x"})
                     cls, inst = Liar, Liar()
+                elif twin:
+                    K1 = W.K[1]
+                    ns_t = {"__module__": K1.__module__, "__qualname__": K1.__qualname__}
+                    ns_t.update({a_: K1.__dict__[a_] for a_ in ("_world", "_idx") if a_ in K1.__dict__})     # (the stub reads these from the class's own namespace)
+                    Twin = type(K1)(K1.__name__, (K1,), ns_t)
+                    cls, inst = Twin, Twin()
                 else:
                     cls = W.cls(c)
                     inst = W.inst[c] if c != n else object()
@@ -171,12 +195,12 @@ def make_run(W, shape, known_active=None):
             finally:
                 sys.modules.pop(DEFMOD, None)
                 sys.modules.pop(DEFMOD + ".inner", None)
-            m = z3.BoolVal(member_fresh(T)) if liar else member13(T, c, W)
+            m = z3.BoolVal(member_fresh(T)) if liar else member_twin(T, W) if twin else member13(T, c, W)
             ran_t = out == ("ran", 0)
             sane = out in (("ran", 0), ("ran", 1))
             post = z3.And(z3.BoolVal(refl and sane), m == z3.BoolVal(got), (m == z3.BoolVal(inst_ok)) if inst_ok is not None else z3.BoolVal(True),
                           m == z3.BoolVal(ran_t))
-            info = dict(type=tstr(T), value_class=("a class whose instances report __class__ = K1" if liar else f"K{c}" if c != n else "object"), subclasscheck=got, isinstance=inst_ok,
+            info = dict(type=tstr(T), value_class=("a proper subclass of K1 with K1's own name" if twin else "a class whose instances report __class__ = K1" if liar else f"K{c}" if c != n else "object"), subclasscheck=got, isinstance=inst_ok,
                         dispatch=list(out), reflexive=refl)
             return Verdict(post, (), info, ["member" if got else "non-member"], nontrivial=got)
 
@@ -254,7 +278,7 @@ def generics(n):
 
 def gen_shapes(tier, seed):
     n, depth = (3, 2) if tier == "quick" else (4, 2)
-    shapes = [dict(kind="member", n=n, t=t, c=c) for t in universe(n, depth) for c in list(range(n + 1)) + ["liar"]]
+    shapes = [dict(kind="member", n=n, t=t, c=c) for t in universe(n, depth) for c in list(range(n + 1)) + ["liar", "twin"]]
     g = generics(n)
     shapes += [dict(kind="pair", n=n, s=s, t=t) for s in g for t in g]
     K = [("K", i) for i in range(n)]
